@@ -76,10 +76,13 @@ package pow
 
 // Mine, up to the launch of the workers (prefix contract: goroutines, channels and the wait are not
 // analysed): the digest handed to the workers is BLAKE2b-256 of the data and the required number of zeros is
-// the one of the message length len(data)+8 and the target score.
+// the one of the message length len(data)+8 and the target score. There is no return before the workers are launched
+// (`ensures false` constrains the returns before the cut point of a prefix contract).
 //@ func (w *Worker) Mine(ctx context.Context, data []byte, targetScore float64) (r uint64, err error)
 //@   prefix
 //@   requires w != nil && w.numWorkers >= 1 && len(data) <= 9223372036854775799
+//@   noframe
+//@   ensures false
 //@   check   len(powDigest) == 32 && forall(j, 0, 32, powDigest[j] == hashcat("blake2b256", data)[j])
 //@   check   targetZeros > 243 || !(math.Pow(consts.TrinaryRadix, float64(targetZeros)) / float64(len(data) + 8) < targetScore)
 
